@@ -153,8 +153,9 @@ func (vc *vectorIndexCache) createAndCacheLOCKED(fieldID uint16, mem []byte,
 		docIDUint32 := uint32(docID)
 		if isExceptNotEmpty && except.Contains(docIDUint32) {
 			vecIDsToExclude = append(vecIDsToExclude, vecID)
-			continue
 		}
+		// the maps are cached and shared with later callers that pass other
+		// exclusion bitmaps, so they must cover every vector of the section.
 		vecDocIDMap[vecID] = docIDUint32
 		if loadDocVecIDMap {
 			docVecIDMap[docIDUint32] = append(docVecIDMap[docIDUint32], vecID)
